@@ -119,7 +119,8 @@ def calculateSunVizFraction(tgt_eci_position: ndarray, sun_eci_position: ndarray
         A = a**2 * arccos(x / a) + b**2 * arccos((c - x) / b) - c * y  # noqa: N806
 
         # Partial occultation
-        return 1.0 - A / (PI * a**2)
+        # [NOTE]: bounded because the overlap area loses precision near first/last contact
+        return min(1.0, max(0.0, 1.0 - A / (PI * a**2)))
 
     return 1.0  # No occultation by the Earth
 
